@@ -292,7 +292,7 @@ CHECKS["C17"] = {
     "legs": [{"name": "synthetic"}, {"name": "u32-field", "profiles": BOTH}, {"name": "captured", "skip_if_violated": True}],
     "technique": "differential monitor between the two implementations + exact-integer invariant (NTRU form) + idempotence, on synthetic and hook-captured production inputs",
     "level_text": "Sampled over the stated input domain and over inputs captured from real key generation; each execution checked exactly.",
-    "level_note": "known finding babai-tie-cycle is reported as KNOWN-FINDING (see known_findings.txt)",
+    "level_note": "known findings babai-tie-cycle and babai-i32-quotient-saturation are reported as KNOWN-FINDING, each only with its exact run-time certificate (see known_findings.txt)",
 }
 
 CHECKS["C16"] = {
@@ -536,6 +536,16 @@ _EXTRA10 = {
     "C16": " Tenth round: message-length sweep (every length 3968..=4224, every 61st up to 20000), own and reference signatures.",
 }
 for _k, _v in _EXTRA10.items():
+    CHECKS[_k]["rule"] += _v
+
+_EXTRA11 = {
+    "C15": " Eleventh round: every pool key is regenerated (4 threads Falcon-512 x 10/40 rounds, 2 threads Falcon-1024) while twenty "
+           "threads loop the key generator's core at n = 4, 8, 16, and compared with its quiet-time fingerprint.",
+    "C17": " Eleventh round: ill-conditioned bases (f, g multiples of (1+x) or (1+x)^2) with alternating (F,G) whose amplitude is chosen from "
+           "the exact quotient so that the largest quotient coefficient lands at 2^28.5 .. 2^31.8; a disagreement is attributed to the "
+           "known finding babai-i32-quotient-saturation only when the exact first quotient exceeds 2^31.",
+}
+for _k, _v in _EXTRA11.items():
     CHECKS[_k]["rule"] += _v
 
 NOT_APPLICABLE = {}
